@@ -169,3 +169,19 @@ _ADDR7DF = (" R07.9: CodeBuilder.dataclass_fields is interpreted from its own so
             "name, the Field object of the nearest declaring ancestor, as dataclasses itself does.")
 EXPLANATION += _ADDR7DF
 LEVEL_TEXT += _ADDR7DF
+
+
+_run_before_r7n = run
+
+
+def run(repo, rep, tier):  # noqa: F811 -- round-7 remedies / borrowings
+    _run_before_r7n(repo, rep, tier)
+    if getattr(rep, "borrowed", False):
+        return
+    from ..core import round7 as _r7n
+    _r7n.type_refs_not_by_bare_name(repo, rep, "R17.15")
+
+
+_ADD_R7N = ' Borrowed: R17.15.'
+EXPLANATION += _ADD_R7N
+LEVEL_TEXT += _ADD_R7N
